@@ -3,6 +3,7 @@ use super::errors::*;
 use super::expressions::parse_expr;
 use super::scopes::*;
 use super::statements::parse_statement_list;
+use crate::casting::ImplicitConversion;
 use super::types::{
     TypePosition, apply_template_type_substitution, is_illegal_variable_name, parse_input_modifier,
     parse_interpolation_modifier, parse_precise, parse_type_for_usage,
@@ -436,9 +437,24 @@ fn parse_paramtype(param: &ast::FunctionParam, context: &mut Context) -> TyperRe
     // TODO: Validate function declaration / definitions specify the default values in the right place
     let default_expr = match &param.default_expr {
         Some(expr) => {
-            // TODO: We do not currently handle the conversion to the parameter type
-            let ir_expr = parse_expr(expr, context)?.0;
-            Some(ir_expr)
+            // The default value initialises the parameter so must be convertible to the parameter type
+            // TODO: We do not currently apply the conversion to the parameter type
+            let ety = context
+                .module
+                .type_registry
+                .remove_modifier(type_id)
+                .to_rvalue();
+            let (ir_expr, expr_ty) = parse_expr(expr, context)?;
+            match ImplicitConversion::find(expr_ty, ety, &mut context.module) {
+                Ok(_) => Some(ir_expr),
+                Err(()) => {
+                    return Err(TyperError::InitializerExpressionWrongType(
+                        expr_ty.0,
+                        ety.0,
+                        name.location,
+                    ));
+                }
+            }
         }
         None => None,
     };
